@@ -266,3 +266,59 @@ Proof.
            (YList [YNum (qc 3 1) true; YNum (qc 3 1) true; YNum (qc 4 1) true; YNum (qc 4 1) true]), [].
     eexists _, _. split; [reflexivity|]. split; [reflexivity|]. split; [reflexivity|]. vm_compute. reflexivity.
 Qed.
+
+(* ---- unconditional acceptance: hard modules with one rectangle ---- *)
+Lemma wf_entry_2_2_4_4 ra : wf_rect_entry ra
+  (YList [YNum (qc 2 1) true; YNum (qc 2 1) true; YNum (qc 4 1) true; YNum (qc 4 1) true]).
+Proof.
+  eexists _, _, _, _, _, _, _, _, _. split; [reflexivity|].
+  repeat split; try reflexivity; try qdec. left. reflexivity.
+Qed.
+
+Example ex_doc0_info_A : wf_info
+  [("area", YMap [("lut", YNum (qc 3 1) true); ("dsp", YNum (qc 2 1) true)]);
+   ("center", YList [YNum (qc 1 1) true; YNum (qc 2 1) true])].
+Proof.
+  wf_info_tac. right. eexists. split; [reflexivity|]. split; [discriminate|]. split; [reflexivity|].
+  repeat constructor; cbn; try reflexivity; eexists; (split; [reflexivity|qdec]).
+Qed.
+
+Example ex_doc0_info_B : wf_info
+  [("hard", YBool true); ("flip", YBool true);
+   ("rectangles", YList [YList [YNum (qc 2 1) true; YNum (qc 2 1) true; YNum (qc 4 1) true; YNum (qc 4 1) true]])].
+Proof.
+  wf_info_tac. right. eexists. split; [reflexivity|]. split; [discriminate|].
+  repeat constructor. apply wf_entry_2_2_4_4.
+Qed.
+
+Example ex_doc0_info_T : wf_info
+  [("terminal", YBool true); ("center", YList [YNum (qc 0 1) true; YNum (qc 5 1) true])].
+Proof. wf_info_tac. Qed.
+
+Example ex_doc0_well_formed : well_formed_doc doc0.
+Proof.
+  eexists. split; [reflexivity|]. split; [reflexivity|]. split; [|split].
+  - intros k v H. in_cases H; auto.
+  - intros v H. in_cases H. eexists. split; [reflexivity|]. split; [reflexivity|].
+    intros name i H. in_cases H; (split; [reflexivity|]); eexists; (split; [reflexivity|]).
+    + exact ex_doc0_info_A.
+    + exact ex_doc0_info_B.
+    + exact ex_doc0_info_T.
+  - intros v H. in_cases H. eexists. split; [reflexivity|].
+    intros n H. in_cases H.
+    + exists ["A"; "B"; "T"], [YNum (qc 2 1) false]. split; [reflexivity|]. split; [cbn; lia|].
+      split; [intros b H; in_cases H; cbn; auto|]. right. eexists _, _. split; [reflexivity|]. split; [reflexivity|qdec].
+    + exists ["A"; "T"], []. split; [reflexivity|]. split; [cbn; lia|].
+      split; [intros b H; in_cases H; cbn; auto|]. left. reflexivity.
+Qed.
+
+Example ex_doc0_hard_single : hard_single_rect doc0.
+Proof.
+  intros name info v (items & mods & E & H1 & H2) Hl Hh. inversion E; subst items; clear E.
+  in_cases H1. in_cases H2; cbn in Hl; inversion Hl; subst v; clear Hl.
+  right. eexists. split; [reflexivity|]. apply wf_entry_2_2_4_4.
+Qed.
+
+(* loaded whatever the epsilon state, e.g. undefined *)
+Example ex_doc0_accepted : exists n, read_netlist sqrt0 None doc0 = Ok n.
+Proof. exact (accept_well_formed_doc_single sqrt0 None doc0 ex_doc0_well_formed ex_doc0_hard_single). Qed.
